@@ -34,4 +34,7 @@ import McpModel.Resume.Window
 import McpModel.Resume.Accept10
 import McpModel.Resume.Sound10
 import McpModel.Resume.WitnessBridge
+import McpModel.Resume.HoldBridge
+import McpModel.Resume.BatchBridge
+import McpModel.Resume.Witness2
 import McpModel.Order.Props
